@@ -23,7 +23,8 @@ from .c03_geom import driver_kind, run_map  # noqa: F401
 
 EPS = Fraction(1, 10 ** 9)
 MAPPY = os.path.join(env.REPO, "src", "osyris", "plot", "map.py")
-SNAPSHOT = {"slab": "sound", "radial": "sound", "depth": "sound"}
+SNAPSHOT = {"slab": "sound", "radial": "sound", "depth": "sound", "depth2d": "sound"}
+UTILSPY = os.path.join(env.REPO, "src", "osyris", "plot", "utils.py")
 OPS = ["sum", "mean", "min", "max", "nansum", "nanmean", "nanmin", "nanmax"]
 BRICK = (44, 117, 240)          # Euler brick: every pair of edges has an integer diagonal
 
@@ -63,9 +64,15 @@ def detect_source():
         if not m:
             raise ValueError("automatic window block not found")
         depth = "sound" if re.search(r"\bthick\b", m.group(1)) else "coded"
-        info.update(slab=slab, radial=radial, depth=depth, source="detected")
+        ktxt = re.sub(r"\s+", " ", "\n".join(l.split("#")[0] for l in open(UTILSPY).read().splitlines()))
+        m = re.search(r"def evaluate_on_grid\(.*?return out", ktxt)
+        if not m:
+            raise ValueError("evaluate_on_grid not found")
+        depth2d = "sound" if re.search(r"iz2 = nz\b", m.group(0)) else "coded"
+        info.update(slab=slab, radial=radial, depth=depth, depth2d=depth2d, source="detected")
     except Exception as e:  # noqa: BLE001
-        info.update(slab=SNAPSHOT["slab"], radial=SNAPSHOT["radial"], depth=SNAPSHOT["depth"], source="fallback", why=str(e))
+        info.update(slab=SNAPSHOT["slab"], radial=SNAPSHOT["radial"], depth=SNAPSHOT["depth"], depth2d=SNAPSHOT["depth2d"],
+                    source="fallback", why=str(e))
     return info
 
 
@@ -372,7 +379,7 @@ def lean_line(case, obs, sel, order=None, spec=True):
             "dx": None if obs["dx"] is None else fs(obs["dx"]), "dy": None if obs["dy"] is None else fs(obs["dy"]),
             "dz": None if obs["dz"] is None else fs(obs["dz"]),
             "nx": nx, "ny": ny, "nz": nz, "op": case.get("op") or "sum", "diag": fs(obs["diag"]),
-            "slab": sel["slab"], "radial": sel["radial"], "depth": sel.get("depth", "coded"), "scale": fs(obs["scale"]), "order": order,
+            "slab": sel["slab"], "radial": sel["radial"], "depth": sel.get("depth", "coded"), "depth2d": sel.get("depth2d", "coded"), "scale": fs(obs["scale"]), "order": order,
             "eps": fstr(EPS), "spec": bool(spec)}
 
 
@@ -588,22 +595,68 @@ def compare_spec(case, obs, impl, ans, lane):
     return out, skipped
 
 
-def classify_violation(case, ans, v):
-    """input class of a pixel-level Spec violation, from the pre-selection verdicts of the cells involved"""
-    if v["kind"] in ("raised", "shape", "unit"):
-        return {"raised": "call_raises", "shape": "output_shape", "unit": "result_unit"}[v["kind"]]
-    if v["kind"] in ("masked_with_cell", "wrong_value"):
-        cells = v.get("cells") or []
-        if cells and not any(ans["radialOk"][c] for c in cells) and all(ans["planeOk"][c] for c in cells):
-            return "radial_preselection_drops_big_cell"
-        if cells and not any(ans["planeOk"][c] for c in cells):
-            return "slab_thinner_than_cell" if case.get("dz") is not None else "plane_preselection_drops_cell"
-        if cells and not any(ans["radialOk"][c] and ans["planeOk"][c] for c in cells):
-            return "radial_preselection_drops_big_cell"
-        return "cell_lost_after_preselection" if v["kind"] == "masked_with_cell" else "wrong_cell_value"
-    if v["kind"] == "value_without_cell":
-        return "value_where_no_cell"
-    return "thick_" + v["kind"]
+FLAG_CLASS = {"depth": "thick_dx_omitted_depth_range_from_data", "depth2d": "thick_map_of_2d_data_depth_footprint", "slab": "slab_thinner_than_cell",
+              "radial": "radial_preselection_drops_big_cell"}
+
+
+def model_as_impl(ans):
+    """the model's answer in the shape of `run_impl`'s (values as floats), for `compare_spec`"""
+    comps = [[None if mk else ("nan" if v is None else float(Fraction(v))) for v, mk in zip(layer, ans["mask"])] for layer in ans["binned"]]
+    layers, k = [], 0
+    for first, is_scalar in ans["slots"]:
+        w = 1 if is_scalar else 3
+        layers.append({"kind": "scalar" if is_scalar else "vector", "comps": comps[first:first + w], "unit_power": ans["unitPower"], "unit": "model"})
+        k += w
+    return {"x": [float(Fraction(t)) for t in ans["x"]], "y": [float(Fraction(t)) for t in ans["y"]], "layers": layers}
+
+
+def classify_violations(case, obs, sel, ans, viols):
+    """input class of every pixel-level Spec violation: which formula of the code, replaced by its sound
+    form in the model, makes the model satisfy the Spec at that pixel. Returns {class: first violation}."""
+    out = {}
+    rest = []
+    for v in viols:
+        if v["kind"] in ("raised", "shape", "unit"):
+            out.setdefault({"raised": "call_raises", "shape": "output_shape", "unit": "result_unit"}[v["kind"]], v)
+        else:
+            rest.append(v)
+    if not rest:
+        return out
+    coded = [k for k in ("depth", "depth2d", "slab", "radial") if sel.get(k, "coded") == "coded"]
+    if case.get("dz") is None:
+        coded = [k for k in coded if k == "radial"]
+    if case.get("dx") is not None:
+        coded = [k for k in coded if k != "depth"]
+    else:
+        coded = [k for k in coded if k != "radial"]
+    if case["ndim"] == 3:
+        coded = [k for k in coded if k != "depth2d"]
+    else:
+        coded = [k for k in coded if k != "slab"]
+    combos = [[k] for k in coded] + [[a, b] for i, a in enumerate(coded) for b in coded[i + 1:]] + ([coded] if len(coded) > 2 else [])
+    variants = []
+    # without dx the window is the extent of the selected cells: a variant has its own pixel grid and
+    # is judged as a whole against its own Spec; with dx the pixel grids coincide: judged pixel by pixel
+    own = case.get("dx") is None
+    if combos:
+        lines = [lean_line(case, obs, dict(sel, **{k: "sound" for k in cb}), spec=own) for cb in combos]
+        for cb, a in zip(combos, run_map(lines)):
+            bad = None
+            if "err" not in a:
+                vv, _ = compare_spec(case, obs, model_as_impl(a), a if own else dict(a, spec=ans["spec"]), "tol")
+                bad = {x["pix"] for x in vv}
+            variants.append((cb, bad))
+    for v in rest:
+        cls = None
+        for cb, bad in variants:
+            if bad is not None and (not bad if own else v["pix"] not in bad):
+                cls = FLAG_CLASS[cb[0]]
+                break
+        if cls is None:
+            cls = {"masked_with_cell": "cell_lost_after_preselection", "wrong_value": "wrong_cell_value",
+                   "value_without_cell": "value_where_no_cell"}.get(v["kind"], "thick_" + v["kind"])
+        out.setdefault(cls, v)
+    return out
 
 
 def describe(case):
